@@ -68,9 +68,11 @@ pub enum E {
     Newtype(i64),
     Tuple(i64, String),
     Struct { x: i64, y: Option<String> },
+    /// fields NOT in alphabetical order
+    Rev { zeta: i64, alpha: bool, mid: Option<i64> },
 }
 pub fn es() -> Vec<E> {
-    vec![E::Unit, E::Newtype(0), E::Newtype(-1), E::Tuple(1, "a".into()), E::Tuple(0, "".into()), E::Struct { x: 0, y: None }, E::Struct { x: 1, y: Some("é".into()) }]
+    vec![E::Unit, E::Newtype(0), E::Newtype(-1), E::Tuple(1, "a".into()), E::Tuple(0, "".into()), E::Struct { x: 0, y: None }, E::Struct { x: 1, y: Some("é".into()) }, E::Rev { zeta: 3, alpha: true, mid: None }, E::Rev { zeta: -1, alpha: false, mid: Some(0) }]
 }
 
 #[derive(Serialize, Deserialize, PartialEq, Debug, Clone)]
@@ -477,7 +479,7 @@ impl Fam for E {
     fn unsupported(&self) -> bool {
         // unit variant = a string at the root; struct variant at the root is documented; a tuple variant at the
         // root is written as its sequence by toml's document serializer, i.e. a non-table at the root
-        matches!(self, E::Unit | E::Struct { .. } | E::Tuple(..))
+        matches!(self, E::Unit | E::Struct { .. } | E::Rev { .. } | E::Tuple(..))
     }
 }
 impl Fam for Vec<Inner> {
@@ -549,6 +551,41 @@ impl Fam for RootNewtMap {
         maps(&["a", "b c"], &[NewtI(0), NewtI(-7)]).into_iter().map(RootNewtMap).collect()
     }
 }
+/// an OPTION at the root, and payloads that print as the empty document (all fields None, an empty map)
+#[derive(Serialize, Deserialize, PartialEq, Debug, Clone)]
+pub struct AllOpt {
+    pub a: Option<i64>,
+    pub b: Option<String>,
+    pub m: Option<BTreeMap<String, i64>>,
+}
+#[derive(Serialize, Deserialize, PartialEq, Debug, Clone)]
+pub struct RootOpt(pub Option<AllOpt>);
+impl Fam for Option<AllOpt> {
+    const NAME: &'static str = "Option<AllOpt{a, b, m: all optional}> at the root";
+    fn all(_tier: Tier) -> Vec<Self> {
+        let mut v = vec![None];
+        for a in [None, Some(0i64)] {
+            for b in [None, Some("s".to_string())] {
+                for m in [None, Some(BTreeMap::new()), Some(maps(&["k"], &[1i64]).pop().unwrap())] {
+                    v.push(Some(AllOpt { a, b: b.clone(), m }));
+                }
+            }
+        }
+        v
+    }
+    fn unsupported(&self) -> bool {
+        // a bare None at the root has no spelling
+        self.is_none()
+    }
+}
+impl Fam for BTreeMap<String, BTreeMap<String, i64>> {
+    const NAME: &'static str = "Map<String, Map<String, i64>> at the root (empty maps at both levels)";
+    fn all(_tier: Tier) -> Vec<Self> {
+        let inner: Vec<BTreeMap<String, i64>> = maps(&["p", "q"], &[0i64]);
+        maps(&["a", "b"], &inner)
+    }
+}
+
 /// an externally tagged enum at the root whose newtype variants hold tables: `[V1]` ...
 #[derive(Serialize, Deserialize, PartialEq, Debug, Clone)]
 pub enum RootEnum {
@@ -603,6 +640,8 @@ pub fn run_family<C: Check>(c: &C, tier: Tier) -> (Acc, Vec<(String, usize)>) {
     run_one::<E, C>(c, tier, &mut total, &mut sizes);
     run_one::<Vec<Inner>, C>(c, tier, &mut total, &mut sizes);
     run_one::<Inner, C>(c, tier, &mut total, &mut sizes);
+    run_one::<Option<AllOpt>, C>(c, tier, &mut total, &mut sizes);
+    run_one::<BTreeMap<String, BTreeMap<String, i64>>, C>(c, tier, &mut total, &mut sizes);
     run_one::<RootNewt, C>(c, tier, &mut total, &mut sizes);
     run_one::<RootNewtMap, C>(c, tier, &mut total, &mut sizes);
     run_one::<RootEnum, C>(c, tier, &mut total, &mut sizes);
